@@ -129,6 +129,13 @@ def compare_heavy(run0, runT, back, viol, counts, classes, hetero_pka=False):
                 if _tie(g, heavy_xyz, 15.0) or _tie(g, heavy_xyz, 20.0):
                     counts["tie_sensitive_groups"] = counts.get("tie_sensitive_groups", 0) + 1
                     break
+                ncarb = sum(1 for nb in adj.get(tuple(g["akey"]), ()) if nb[0].startswith("C"))
+                if g.get("terminal") == "C-" and ncarb >= 2:
+                    # the terminal oxygen is bonded to two carbons (distorted geometry): the group
+                    # is centred with whichever carbon comes first in the bond list
+                    viol.append({"cls": "cterm-carbon-choice-order-dependent", "msg": "%s: %s (terminal oxygen bonded to %d carbons) %s %.6g vs %.6g in the moved frame" % (
+                        name, g["label"], ncarb, fld, a, b)})
+                    break
                 viol.append({"cls": "pose-changes-desolvation", "msg": "%s: %s %s %.9g vs %.9g in the moved frame" % (name, g["label"], fld, a, b)})
         for k, h in iT.items():
             if k not in i0:
